@@ -324,11 +324,19 @@ func (e *endpointManager) addAliveEp(ep endpoint.Endpoint) {
 	e.epLock.Lock()
 	// ep comes from the adapter, which keeps the endpoint as it was when the adapter was created;
 	// the registry may have changed its weight (or other attributes) since: use the current record
+	listed := e.directProxy
 	for i := range e.activeEpf {
 		if cur := endpoint.Tars2endpoint(e.activeEpf[i]); cur.Key == ep.Key {
 			ep = cur
+			listed = true
 			break
 		}
+	}
+	if !listed {
+		// the registry has taken the endpoint off its active list while it was blocked: a probe that
+		// succeeds does not make it a member again (a later refresh that lists it does)
+		e.epLock.Unlock()
+		return
 	}
 	sortedEps := e.activeEp[:]
 	sortedEps = append(sortedEps, ep)
